@@ -45,7 +45,7 @@ ASSUMPTIONS = [
     "the extracted model and driver are faithful to the Coq definitions (extraction is trusted)",
 ]
 
-PARTIAL = ("codec theorems cover ParseTimeout (round trip of every binary64 value for which unparse returns; unparse returns for every non-negative value; refuted for a negative value on which it raises), "
+PARTIAL = ("codec theorems cover ParseTimeout (unparse returns for every binary64 value and the value survives the round trip), "
            "ParseCSVInt, ParseErrorCodes (both signs), ParseCSVTraceEvent round trips; "
            "ParseArrayLengths: round trip proved for every dictionary parse can return, over the hand-written recogniser of the two regexes (pinned literally), which is tied to re.match/re.findall by correspondence only; "
            "whether 'nan' / 'inf' / a negative number is a well-formed timeout is not decided by the spec rendering (they are accepted by the code, observed and round-tripped)")
@@ -944,15 +944,8 @@ def impl_float(h):
 
 
 def raises_sig(v):
-    """precise signature of a raising unparse: the one recorded case is a negative value whose
-    product with 1000 is -inf"""
-    if v == v and abs(v) != math.inf and v < 0 and v * 1000 == -math.inf:
-        return "unparse-raises-negative-overflow"
+    """unparse must return for every float: a raising unparse is one defect, whatever the value"""
     return "unparse-raises"
-
-
-def model_codec_calls(codec, s):
-    return [(f"c18_{codec}_parse", S(s))]
 
 
 def in_model_alphabet(codec, s):
